@@ -32,7 +32,7 @@ func (p *Pair) Step(prog node.Type, used bool, label string) (failed bool) {
 	vrt.CaptureStart()
 	v, err := p.S.Run(prog, used)
 	out := vrt.Captured()
-	vrt.Assert(Class(err) == rerr, label+"/error-class-equals-reference")
+	vrt.Assert(SameClass(Class(err), rerr), label+"/error-class-equals-reference")
 	if err == nil && used {
 		vrt.Assert(SameAsRef(v, rv), label+"/value-equals-reference")
 	}
@@ -60,8 +60,8 @@ func VerifC01Expr() {
 		ctx = [...]int{0, 3, 2}[ctx]
 	}
 	var e node.Type
-	fam := vrt.Choice("family", 6)
-	vrt.Assume(fam >= vrt.Param("fam_lo", 0) && fam <= vrt.Param("fam_hi", 5))
+	fam := vrt.Choice("family", 7)
+	vrt.Assume(fam >= vrt.Param("fam_lo", 0) && fam <= vrt.Param("fam_hi", 6))
 	switch fam {
 	case 0:
 		e = g.Expr(vrt.Param("budget", 1))
@@ -73,6 +73,11 @@ func VerifC01Expr() {
 		e = g.Same(1)
 	case 4:
 		e = g.Tree(1 + vrt.Choice("treeops", vrt.Param("treeops", 3)))
+		if vrt.Bool("compound-left") {
+			e = bin(g.op(), bin(g.op(), node.Int(vrt.Int("lit")), node.Int(vrt.Int("lit"))), e)
+		}
+	case 6:
+		e = g.DeepOperand()
 	default:
 		vrt.Assume(StmtCtx(ctx))
 		e = node.IfElse{Condition: g.Leaf(), TrueCase: g.Expr(1), FalseCase: g.Leaf()}
